@@ -37,7 +37,11 @@ Theorem C19_no_conns_no_tables : forall n0 n, reach_g n0 n -> n_conns n = [] ->
   (forall p, List.In p (n_peers n) -> p_conn p = None).
 Proof. exact NodeD.C19_no_conns_no_tables. Qed.
 
-Theorem C19_origin_backed : forall n0 n, reach_a n0 n -> origin_backed n.
+(* OLD (origin table keyed by the pair only): forall n0 n, reach_a n0 n -> origin_backed n, without any guard.
+   With the table keyed by connection the entries of a connection leave with THAT connection only, so the
+   statement needs "one connection per host identity" (Zo), i.e. the guards: without clause (iii) it is false even
+   in the weak form (C19_origin_backed_unguarded_refuted). *)
+Theorem C19_origin_backed : forall n0 n, reach_ga n0 n -> origin_backed n.
 Proof. exact NodeD.C19_origin_backed. Qed.
 
 Theorem C19_no_conns_no_origin : forall n0 n, reach_ga n0 n -> n_conns n = [] -> n_origin_waiting n = [].
@@ -70,8 +74,22 @@ Proof. exact NodeD.C19_empty_name_refuted. Qed.
 Theorem C19_origin_backed_request_flag_refuted :
   exists n0 evs, wf_init_g n0 /\ ce_guard n0 evs /\
     let n := fst (run n0 evs) in
-    n_origin_waiting n = [(7%Z, 7%Z, "a"%string)] /\ n_peer_waiting n = [("a"%string, [])] /\ ~ origin_backed n.
+    n_origin_waiting n = [(0, 7%Z, 7%Z, "a"%string)] /\ n_peer_waiting n = [("a"%string, [])] /\
+    ~ origin_backed_in n /\ ~ origin_backed n.
 Proof. exact NodeD.C19_origin_backed_request_flag_refuted. Qed.
+
+(* ---- clause (iii) of the guard is needed for C19_origin_backed (it was not while the origin table was keyed by
+   the pair only: the old statement had no guard).  A request read from a connection whose connect() is still in
+   progress is filed under the empty host identity; the entries of the origin table leave with THEIR connection
+   only, but the waiting set of the empty host identity leaves with any connection that has no host identity
+   yet: the origin entry of connection 0 stays, nothing backs it.  The history satisfies (i') and the
+   discipline. ---- *)
+Theorem C19_origin_backed_unguarded_refuted :
+  exists n0 evs, wf_init_g n0 /\ cer_guard n0 evs /\ ans_disc evs /\
+    let n := fst (run n0 evs) in
+    reach_a n0 n /\ n_origin_waiting n = [(0, 7%Z, 7%Z, "a"%string)] /\ n_peer_waiting n = [] /\
+    ~ origin_backed_in n /\ ~ origin_backed n.
+Proof. exact NodeD.C19_origin_backed_unguarded_refuted. Qed.
 End FromNodeD.
 
 Module FromNodeC.
@@ -84,14 +102,26 @@ Theorem C09_removed_on_close n cid r c :
   forall l, ~ List.In (c_host c, l) (n_peer_waiting (remove_conn n cid r)).
 Proof. exact (@NodeC.C09_removed_on_close n cid r c). Qed.
 
-(* C09: an answer that cannot be routed although some host was waiting for its pair (no connection
-   of that host, or the connection is not ready) releases the pair's entry of the origin table *)
-Theorem C09_unroutable_releases_origin n m :
+(* C09 (old statement, origin table keyed by the pair only; false for the table keyed by connection,
+   see ex_C09_unroutable_releases_origin_refuted below):
+     fst (route_answer n m) = None ->
+     List.find (fun e => mem_zz (o_hbh m, o_e2e m) (snd e)) (n_peer_waiting n) <> None ->
+     forall h e x, List.In (h, e, x) (n_origin_waiting (snd (route_answer n m))) ->
+                   ~ (h = o_hbh m /\ e = o_e2e m).
+   New: an answer that cannot be routed although a host was waiting for its pair AND a connection
+   with that host identity exists (which then is not ready) releases that connection's entry for
+   the pair; every other entry of the origin table stays. *)
+Theorem C09_unroutable_releases_origin n m host l c :
+  List.find (fun e => mem_zz (o_hbh m, o_e2e m) (snd e)) (n_peer_waiting n) = Some (host, l) ->
+  List.find (fun c => String.eqb (c_host c) host) (n_conns n) = Some c ->
   fst (route_answer n m) = None ->
-  List.find (fun e => mem_zz (o_hbh m, o_e2e m) (snd e)) (n_peer_waiting n) <> None ->
-  forall h e x, List.In (h, e, x) (n_origin_waiting (snd (route_answer n m))) ->
-                ~ (h = o_hbh m /\ e = o_e2e m).
-Proof. exact (@NodeC.C09_unroutable_releases_origin n m). Qed.
+  is_ready_state (c_state c) = false /\
+  (forall k h e x, List.In (k, h, e, x) (n_origin_waiting (snd (route_answer n m))) ->
+                   ~ (k = c_id c /\ h = o_hbh m /\ e = o_e2e m)) /\
+  (forall k h e x, List.In (k, h, e, x) (n_origin_waiting n) ->
+                   ~ (k = c_id c /\ h = o_hbh m /\ e = o_e2e m) ->
+                   List.In (k, h, e, x) (n_origin_waiting (snd (route_answer n m)))).
+Proof. exact (@NodeC.C09_unroutable_releases_origin n m host l c). Qed.
 
 (* C10: an answer is handed to the blocked caller of the application that sent the request
    (and to no other application), or reported as unexpected to that application when nobody is
@@ -137,6 +167,7 @@ Print Assumptions FromNodeD.C13_closed_stays_closed.
 Print Assumptions FromNodeD.C19_connecting_read_refuted.
 Print Assumptions FromNodeD.C19_empty_name_refuted.
 Print Assumptions FromNodeD.C19_origin_backed_request_flag_refuted.
+Print Assumptions FromNodeD.C19_origin_backed_unguarded_refuted.
 Print Assumptions FromNodeC.C09_removed_on_close.
 Print Assumptions FromNodeC.C09_unroutable_releases_origin.
 Print Assumptions FromNodeC.C10_correlation.
